@@ -7,7 +7,14 @@ package session
 // The abstract view of a PacketStore is the map s.packets itself: id -> packet.
 // Every operation states the whole view (all ids), not just the touched key.
 //
-//@ guarded_by PacketStore.mutex: PacketStore.packets
+//@ guarded_by PacketStore.mutex: PacketStore.packets, PacketStore.order
+//
+// Representation invariant (monitor invariant of the store's mutex): order
+// lists ids present in packets, each once - it is the sequence of first saves
+// with the deleted ids removed. (That it lists every stored id is not part of
+// the machine-checked invariant.)
+//@ monitor PacketStore.mutex [present] forall i int {self.order[i]} :: 0 <= i && i < len(self.order) ==> has(self.packets, self.order[i])
+//@ monitor PacketStore.mutex [distinct] forall i int, j int {self.order[i], self.order[j]} :: 0 <= i && i < j && j < len(self.order) ==> self.order[i] != self.order[j]
 //
 //@ spec pred wfpkt(pkt packet.Generic) = pkt != nil && (typecode(pkt) != 0 ==> as(pkt, *packet.Publish) != nil)
 //
@@ -17,8 +24,10 @@ package session
 //@   requires [wfpkt]    wfpkt(pkt)
 //@   ensures  [saved]    hasID(pkt) ==> has(s.packets, idOf(pkt)) && s.packets[idOf(pkt)] == pkt
 //@   ensures  [others]   forall k packet.ID :: !(hasID(pkt) && k == idOf(pkt)) ==> (has(s.packets, k) <==> old(has(s.packets, k))) && s.packets[k] == old(s.packets[k])
+//@   ensures  [order-kept] !(hasID(pkt) && !old(has(s.packets, idOf(pkt)))) ==> s.order == old(s.order)
+//@   ensures  [order-appended] hasID(pkt) && !old(has(s.packets, idOf(pkt))) ==> len(s.order) == old(len(s.order)) + 1 && s.order[old(len(s.order))] == idOf(pkt) && forall i int {s.order[i]} :: 0 <= i && i < old(len(s.order)) ==> s.order[i] == old(s.order[i])
 //@   ensures  [released] held[s.mutex] == 0
-//@   modifies elems(s.packets), held[s.mutex]
+//@   modifies elems(s.packets), s.order, elems(s.order[0:cap(s.order)]), held[s.mutex]
 //
 //@ func (s *PacketStore) Lookup(id packet.ID) (pkt packet.Generic)
 //@   requires [unlocked] held[s.mutex] == 0
@@ -31,28 +40,33 @@ package session
 //@   requires [unlocked] held[s.mutex] == 0
 //@   ensures  [gone]     !has(s.packets, id)
 //@   ensures  [others]   forall k packet.ID :: k != id ==> (has(s.packets, k) <==> old(has(s.packets, k))) && s.packets[k] == old(s.packets[k])
+//@   ensures  [order-kept] (forall i int {old(s.order[i])} :: 0 <= i && i < old(len(s.order)) ==> old(s.order[i]) != id) ==> s.order == old(s.order)
+//@   ensures  [order-removed] (exists q int {old(s.order[q])} :: 0 <= q && q < old(len(s.order)) && old(s.order[q]) == id) ==> len(s.order) == old(len(s.order)) - 1 && exists p int {old(s.order[p])} :: 0 <= p && p < old(len(s.order)) && old(s.order[p]) == id && (forall i int {s.order[i]} :: 0 <= i && i < p ==> s.order[i] == old(s.order[i])) && (forall i int {s.order[i]} :: p <= i && i < len(s.order) ==> s.order[i] == old(s.order[i+1]))
 //@   ensures  [released] held[s.mutex] == 0
-//@   modifies elems(s.packets), held[s.mutex]
+//@   modifies elems(s.packets), s.order, elems(s.order[0:cap(s.order)]), held[s.mutex]
+//@   loop 1 invariant [scan] held[s.mutex] == 2 && 0 <= rangeindex + 1 && rangeindex + 1 <= len(s.order) && s.order == old(s.order) && !has(s.packets, id) && (forall k packet.ID {s.packets[k]} :: k != id ==> (has(s.packets, k) <==> old(has(s.packets, k))) && s.packets[k] == old(s.packets[k])) && forall i int {s.order[i]} :: 0 <= i && i <= rangeindex ==> s.order[i] != id
 //
 //@ func (s *PacketStore) Reset()
 //@   requires [unlocked] held[s.mutex] == 0
 //@   ensures  [empty]    s.packets != nil && forall k packet.ID :: !has(s.packets, k)
 //@   ensures  [fresh]    fresh(s.packets)
+//@   ensures  [order]    len(s.order) == 0
 //@   ensures  [released] held[s.mutex] == 0
-//@   modifies s.packets, held[s.mutex]
+//@   modifies s.packets, s.order, held[s.mutex]
 //
 //@ func (s *PacketStore) All() (all []packet.Generic)
 //@   requires [unlocked] held[s.mutex] == 0
 //@   ensures  [sound]    forall i int {all[i]} :: 0 <= i && i < len(all) ==> exists k packet.ID {s.packets[k]} :: has(s.packets, k) && s.packets[k] == all[i]
+//@   ensures  [order]    len(all) == len(s.order) && forall i int {all[i]} :: 0 <= i && i < len(all) ==> all[i] == s.packets[s.order[i]]
 //@   ensures  [fresh]    fresh(all)
 //@   ensures  [released] held[s.mutex] == 0
 //@   modifies held[s.mutex]
-//@   loop 1 invariant [sound] forall i int {all[i]} :: 0 <= i && i < len(all) ==> exists k packet.ID {s.packets[k]} :: has(s.packets, k) && s.packets[k] == all[i]
+//@   loop 1 invariant [order] 0 <= rangeindex + 1 && rangeindex + 1 <= len(s.order) && len(all) == rangeindex + 1 && forall i int {all[i]} :: 0 <= i && i < len(all) ==> all[i] == s.packets[s.order[i]] && has(s.packets, s.order[i])
 //@   loop 1 invariant [fresh] fresh(all)
 //@   loop 1 invariant [held]  held[s.mutex] == 1
 //
 //@ func NewPacketStore() (s *PacketStore)
-//@   ensures [fresh] fresh(s) && s != nil && fresh(s.packets) && s.packets != nil
+//@   ensures [fresh] fresh(s) && s != nil && fresh(s.packets) && s.packets != nil && len(s.order) == 0
 //@   ensures [empty] forall k packet.ID :: !has(s.packets, k)
 //@   ensures [unlocked] held[s.mutex] == 0
 //
@@ -79,7 +93,7 @@ package session
 //@   ensures  [others] forall k packet.ID :: !(hasID(pkt) && k == idOf(pkt)) ==> (has((dir == 0 ? s.Incoming : s.Outgoing).packets, k) <==> old(has((dir == 0 ? s.Incoming : s.Outgoing).packets, k))) && (dir == 0 ? s.Incoming : s.Outgoing).packets[k] == old((dir == 0 ? s.Incoming : s.Outgoing).packets[k])
 //@   ensures  [otherdir] forall k packet.ID :: (has((dir == 0 ? s.Outgoing : s.Incoming).packets, k) <==> old(has((dir == 0 ? s.Outgoing : s.Incoming).packets, k))) && (dir == 0 ? s.Outgoing : s.Incoming).packets[k] == old((dir == 0 ? s.Outgoing : s.Incoming).packets[k])
 //@   ensures  [wf]    wfsession(s)
-//@   modifies elems((dir == 0 ? s.Incoming : s.Outgoing).packets), held[(dir == 0 ? s.Incoming : s.Outgoing).mutex]
+//@   modifies elems((dir == 0 ? s.Incoming : s.Outgoing).packets), (dir == 0 ? s.Incoming : s.Outgoing).order, elems((dir == 0 ? s.Incoming : s.Outgoing).order[0:cap((dir == 0 ? s.Incoming : s.Outgoing).order)]), held[(dir == 0 ? s.Incoming : s.Outgoing).mutex]
 //
 //@ func (s *MemorySession) LookupPacket(dir Direction, id packet.ID) (pkt packet.Generic, err error)
 //@   requires [dir]   dir == 0 || dir == 1
@@ -98,13 +112,14 @@ package session
 //@   ensures  [others] forall k packet.ID :: k != id ==> (has((dir == 0 ? s.Incoming : s.Outgoing).packets, k) <==> old(has((dir == 0 ? s.Incoming : s.Outgoing).packets, k))) && (dir == 0 ? s.Incoming : s.Outgoing).packets[k] == old((dir == 0 ? s.Incoming : s.Outgoing).packets[k])
 //@   ensures  [otherdir] forall k packet.ID :: (has((dir == 0 ? s.Outgoing : s.Incoming).packets, k) <==> old(has((dir == 0 ? s.Outgoing : s.Incoming).packets, k))) && (dir == 0 ? s.Outgoing : s.Incoming).packets[k] == old((dir == 0 ? s.Outgoing : s.Incoming).packets[k])
 //@   ensures  [wf]    wfsession(s)
-//@   modifies elems((dir == 0 ? s.Incoming : s.Outgoing).packets), held[(dir == 0 ? s.Incoming : s.Outgoing).mutex]
+//@   modifies elems((dir == 0 ? s.Incoming : s.Outgoing).packets), (dir == 0 ? s.Incoming : s.Outgoing).order, elems((dir == 0 ? s.Incoming : s.Outgoing).order[0:cap((dir == 0 ? s.Incoming : s.Outgoing).order)]), held[(dir == 0 ? s.Incoming : s.Outgoing).mutex]
 //
 //@ func (s *MemorySession) AllPackets(dir Direction) (all []packet.Generic, err error)
 //@   requires [dir]   dir == 0 || dir == 1
 //@   requires [wf]    wfsession(s)
 //@   ensures  [ok]    err == nil
 //@   ensures  [sound] forall i int :: 0 <= i && i < len(all) ==> exists k packet.ID :: has((dir == 0 ? s.Incoming : s.Outgoing).packets, k) && (dir == 0 ? s.Incoming : s.Outgoing).packets[k] == all[i]
+//@   ensures  [order] len(all) == len((dir == 0 ? s.Incoming : s.Outgoing).order) && forall i int {all[i]} :: 0 <= i && i < len(all) ==> all[i] == (dir == 0 ? s.Incoming : s.Outgoing).packets[(dir == 0 ? s.Incoming : s.Outgoing).order[i]]
 //@   ensures  [fresh] fresh(all)
 //@   ensures  [wf]    wfsession(s)
 //@   modifies held[(dir == 0 ? s.Incoming : s.Outgoing).mutex]
